@@ -23,10 +23,40 @@ func (dec *Decoder) VerifErrField() (int32, string, bool) {
 	if dec.err == nil {
 		return 0, "", false
 	}
-	if pe, ok := dec.err.(parseError); ok {
-		return int32(pe.field), pe.message, true
+	// read the public text "failed while parsing <field>: <message>" rather than the error's representation, which
+	// a harmless rewrite (pointer receiver, another struct) may change
+	text := dec.err.Error()
+	const prefix = "failed while parsing "
+	if len(text) > len(prefix) && text[:len(prefix)] == prefix {
+		rest := text[len(prefix):]
+		for i := 0; i < len(rest); i++ {
+			if rest[i] == ':' {
+				n, neg, ok := int64(0), false, i > 0
+				for j := 0; j < i && ok; j++ {
+					switch {
+					case j == 0 && rest[j] == '-' && i > 1:
+						neg = true
+					case rest[j] >= '0' && rest[j] <= '9':
+						n = n*10 + int64(rest[j]-'0')
+					default:
+						ok = false
+					}
+				}
+				if ok {
+					if neg {
+						n = -n
+					}
+					msg := rest[i+1:]
+					if len(msg) > 0 && msg[0] == ' ' {
+						msg = msg[1:]
+					}
+					return int32(n), msg, true
+				}
+				break
+			}
+		}
 	}
-	return 0, dec.err.Error(), true
+	return 0, text, true
 }
 
 // VerifZigZag32 exposes the unexported conv.go transforms.
